@@ -267,6 +267,20 @@ func firstDiff(a, b string) string {
 	return fmt.Sprintf("at byte %d: %q vs %q", i, a[lo:ha], b[lo:hb])
 }
 
+func c20Render(c *eng.Case) string {
+	var base int
+	fmt.Sscan(c.Get("base"), &base)
+	var subs []c20Sub
+	if s := c.Get("subs"); s != "" {
+		for _, p := range strings.Split(s, ",") {
+			var x c20Sub
+			fmt.Sscanf(p, "%d.%d.%d.%d", &x.m, &x.tag, &x.content, &x.place)
+			subs = append(subs, x)
+		}
+	}
+	return c20Doc(base, subs, c.Get("variant"))
+}
+
 func c20Check(c *eng.Case) *eng.Outcome {
 	o := &eng.Outcome{Execs: 3}
 	var base int
